@@ -76,6 +76,7 @@ def check(ctx):
         _score_checks(ctx, N, cls, pkg, axis, S, "PCovFPS")
     _argmax_check(ctx)
     _shared(ctx, N)
+    pick_rule(ctx, N, "R-ARGMAX", ("FPS", "PCovFPS"))
     # PCov-FPS measures distances in the PCovR-modified covariance / Gram matrix: those two functions
     # equal their documented formulas (shared with C03 / C04)
     from . import pcovr_common as pc
@@ -234,6 +235,30 @@ def _argmax_check(ctx):
         N_ = ctx.normalizer()
         ok2 = ref is not None and N_.nf(t) == N_.nf(ref.term)
     ctx.ob("R-ARGMAX", "argmax is taken over the scorer's own vector", ok2, f"argmax argument {inner!r}", ctx.site(m))
+
+
+def pick_rule(ctx, N, rule, names):
+    """every concrete selector picks with the shared step: the argmax of its score table with the already selected
+    candidates excluded (an override in one class - reading its table without the mask - survives every test with
+    distinct candidates)"""
+    from ..terms import V as _V
+
+    P = ctx.P
+    for pkg in ("feature_selection", "sample_selection"):
+        for name in names:
+            try:
+                cls = P.cls(f"skmatter.{pkg}.{name}")
+            except Exception:
+                continue
+            m = cls.find_method("_get_best_new_selection")
+            scores = arr("scores", "S0", inp=False)
+            sel, Q = arr("sel", "S", inp=False, dtype="int"), integer("Q")
+            I, st = ctx.interp(), State()
+            o = ctx.bare_object(I, st, cls, {"_axis": 1 if pkg == "feature_selection" else 0, "score_threshold": None, "selected_idx_": sel, "n_selected_": Q, "first_score_": None, "score_threshold_type": "absolute", "hausdorff_": scores, "pi_": scores})
+            r = ctx.call_method(I, st, o, "_get_best_new_selection", _V("func", T("scorer"), func=("builtin", (lambda i_, a_, k_, s_, n_, scores=scores: scores), "scorer")), arr("X", "N", "M"), arr("y", "N", "P"))
+            I2, s2 = ctx.interp(), State()
+            ref = ctx.call_func(I2, s2, "ref.selection_ref.best_new_selection", scores, sel, Q, vconst(None), "absolute", vconst(None))
+            ctx.compare(rule, f"{pkg}.{name}: next pick = argmax of the score table with every already selected candidate excluded", N, r, ref, ctx.site(m), f"{pkg}.{name}")
 
 
 def _shared(ctx, N):
